@@ -1734,3 +1734,61 @@ for _p in ("C01", "C04", "C13", "C14", "C18"):
     PROPS[_p]["cases"] = (lambda base, pref: (lambda seed, tier: base(seed, tier) + posterr_cases(pref, seed, tier)))(PROPS[_p]["cases"], _p.lower())
     PROPS[_p]["rule"] = PROPS[_p]["rule"] + "; plus the post-error family: programs with variables, loops and a declared signal whose evaluation fails on one particular driver answer " \
                                            "(division by zero, Z/X) or whose driver deviates once, run by a caller that keeps calling next() after the error item"
+
+
+# ------------------------------------------------------------------ C05: exhaustive small scope
+
+def c05_exhaustive(seed, tier):
+    """EVERY row of width 1..4 over {0, 1, X, C, Z} for every assignment of column kinds (input / output /
+    bidirectional input side / bidirectional expected side) - small scope, complete: quick = every 9th such row
+    (rotating with the seed), thorough = all of them; two rows per case so that `changed` flags and the previous
+    vector take part"""
+    import itertools
+    kinds = ["I", "O", "B", "b"]           # b = the _out column of a bidirectional signal
+    entries = {"I": ["0", "1", "X", "C", "Z"], "B": ["0", "1", "X", "C", "Z"], "O": ["0", "1", "X", "Z"], "b": ["0", "1", "X", "Z"]}
+    cases = []
+    n = 0
+    for width in (1, 2, 3, 4):
+        for ks in itertools.product(kinds, repeat=width):
+            if sum(1 for k in ks if k in ("I", "B")) == 0:
+                continue
+            if ks.count("b") > ks.count("B") and "b" in ks:
+                pass
+            names, sigs, hdr = [], [], []
+            bi = 0
+            ok = True
+            for j, k in enumerate(ks):
+                if k == "I":
+                    nm_ = "I%d" % j
+                    sigs.append({"name": nm_, "typ": "I", "bits": 1, "default": "0"}); hdr.append(nm_)
+                elif k == "O":
+                    nm_ = "O%d" % j
+                    sigs.append({"name": nm_, "typ": "O", "bits": 1, "default": "-"}); hdr.append(nm_)
+                elif k == "B":
+                    nm_ = "B%d" % j
+                    sigs.append({"name": nm_, "typ": "B", "bits": 1, "default": "0"}); hdr.append(nm_)
+                else:
+                    # the expected side of a bidirectional signal that has (or has not) an input-side column elsewhere
+                    prev = [s_["name"] for s_ in sigs if s_["typ"] == "B" and s_["name"] + "_out" not in hdr]
+                    if prev:
+                        hdr.append(prev[0] + "_out")
+                    else:
+                        nm_ = "B%d" % j
+                        sigs.append({"name": nm_, "typ": "B", "bits": 1, "default": "0"}); hdr.append(nm_ + "_out")
+            for row in itertools.product(*[entries[k] for k in ks]):
+                if not any(e in ("X", "C") for e in row):
+                    continue
+                n += 1
+                if tier == "quick" and (n + seed) % 9 != 0:
+                    continue
+                out_idx = [i for i, s_ in enumerate(sigs) if s_["typ"] in ("O", "B")]
+                src = " ".join(hdr) + "\n" + " ".join("1" if e in ("X", "C") else e for e in row) + "\n" + " ".join(row) + "\n"
+                cases.append({"id": "c05-ex-%d" % n, "kind": "run", "src": src, "sigs": [dict(s_) for s_ in sigs], "layout": out_idx,
+                              "table": [["1"] * len(out_idx), ["0"] * len(out_idx)], "echo": 0, "wdefault": n % 2, "faults": [], "max": 400, "seed": 1})
+    return cases
+
+
+_c05_base = PROPS["C05"]["cases"]
+PROPS["C05"]["cases"] = lambda seed, tier: _c05_base(seed, tier) + c05_exhaustive(seed, tier)
+PROPS["C05"]["rule"] += "; plus the exhaustive small scope: every row of width 1-4 over {0,1,X,C,Z} for every assignment of column kinds (input, output, bidirectional input side, " \
+                        "bidirectional expected side), preceded by a plain row (quick: every 9th, rotating with the seed; thorough: all)"
